@@ -1,5 +1,6 @@
 import Xo.Lemmas.LayoutRT
 import Xo.Lemmas.RefGraphOps
+import Xo.Lemmas.IterIndex
 import Xo.Lemmas.Path
 /-! C01 — values written at construction are read back exactly (property theorems only).
 Reference-free grammar, nested to any depth; every conforming value; any buffer image and any placement with room.
@@ -97,5 +98,18 @@ theorem C01_new_node_reads (u : RG.Univ) (s s1 : RG.St) (hi : RG.Inv u s) (c : N
       (fk ≠ .scal → deref s1.b.mem (o + RG.foff cl k) = none) ∧
       (∀ cs, fk = .uref cs → memberIdx s1.b.mem (o + RG.foff cl k) = -1) :=
   RG.newObj_reads hi h
+
+
+/-- **the writer's item order is memory order**: `iter_index(shape, order)` - the order in which `Array._to_buffer` places the items
+and in which the driver glue lists the items of a value - yields, for every shape and every axis order that is a permutation of the
+axes, the index tuples by increasing memory position: the k-th tuple has position k.  Together with `C06_item_at_index` (the view
+reads item number `mposL idx` for the tuple `idx`) this closes the loop "the value given for index tuple `idx` is the value read at
+`idx`" for N-dimensional arrays of every axis order -/
+theorem C01_iter_index_is_memory_order (shape order : List Nat) (hperm : order.Perm (List.range shape.length)) :
+    (LayM.iterIndex shape order).map (mposL shape order) = List.range (prod (order.map fun ax => shape.getD ax 0)) :=
+  iterIndex_mposL shape order hperm
+
+example : LayM.iterIndex [2, 3] [1, 0] = [[0, 0], [1, 0], [0, 1], [1, 1], [0, 2], [1, 2]] ∧
+    (LayM.iterIndex [2, 3] [1, 0]).map (mposL [2, 3] [1, 0]) = [0, 1, 2, 3, 4, 5] := by decide
 
 end Lay
